@@ -354,7 +354,7 @@ class Ctx:
                 self.known_hits[f['id']] = self.known_hits.get(f['id'], 0) + 1
                 return
         n = len(self.violations)
-        path = os.path.join(BUILD, 'replay', '%s-%d.json' % (self.pid, n))
+        path = os.path.join(BUILD, 'replay', ('re-' if getattr(self, 'replay_mode', False) else '') + '%s-%d.json' % (self.pid, n))
         json.dump(dict(property=self.pid, kind=kind, cls=cls, seed=self.seed, tier=self.tier,
                        concrete_failing_input=concrete, detail=detail), open(path, 'w'), indent=1)
         self.violations.append(dict(kind=kind, cls=cls, replay=path, concrete=concrete))
@@ -362,8 +362,8 @@ class Ctx:
     def finish(self):
         # a broken gate without any concrete failing input is still a violation
         if self.gate_breaks and not any(v['concrete'] for v in self.violations):
-            path = os.path.join(BUILD, 'replay', '%s-gate.json' % self.pid)
-            json.dump(dict(property=self.pid, no_longer_checks=self.gate_breaks, seed=self.seed,
+            path = os.path.join(BUILD, 'replay', ('re-' if getattr(self, 'replay_mode', False) else '') + '%s-gate.json' % self.pid)
+            json.dump(dict(property=self.pid, no_longer_checks=self.gate_breaks, seed=self.seed, tier=self.tier,
                            note='no concrete failing input was found by the search'), open(path, 'w'), indent=1)
             self.violations.append(dict(kind='gate', cls=None, replay=path, concrete=False))
         status1 = sh(['git', '-C', REPO, 'status', '--porcelain'])[1]
@@ -381,7 +381,8 @@ class Ctx:
         if self.explanation:
             self.cov['explanation'] = self.explanation
         os.makedirs(os.path.join(VERIF, 'evidence'), exist_ok=True)
-        json.dump(ev, open(os.path.join(VERIF, 'evidence', self.pid + '.json'), 'w'), indent=1)
+        if not getattr(self, 'replay_mode', False):
+            json.dump(ev, open(os.path.join(VERIF, 'evidence', self.pid + '.json'), 'w'), indent=1)
         for v in self.violations:
             tail = '' if v['concrete'] else ' no-failing-input-found'
             print('VIOLATION property=%s replay=%s%s' % (self.pid, v['replay'], tail))
